@@ -4,7 +4,7 @@
    case = [fmt; ty; N; h0; ha_mode; ha_p; tail; m; item_0 .. item_{m-1}]
      fmt  0 scripted deserializer, 1 JSON text, 2 bincode, 3 serde_json::Value, 4 serialize,
           5 the scripted deserializer entered through deserialize_in_place (same meaning as 0)
-     ty   0 u8, 1 f64, 2 drop-tracked Tr
+     ty   0 u8, 1 f64, 2 drop-tracked Tr, 3 zero-sized drop-tracked (identities reconstructed by the harness)
      h0   -1 = size_hint() says None up front, otherwise Some h0
      ha_mode / ha_p: size_hint() asked again after k calls of next_element:
           0 -> None,  1 -> Some (max 0 (ha_p - k)),  2 -> Some ha_p
@@ -12,7 +12,7 @@
      tail what next_element answers beyond the m scripted items
    observables (deserialize) = [1; len; a...; polls; ndrops; sorted drops...] on Ok,
                                [0; 0; polls; ndrops; sorted drops...] on Err  (polls = -1 where the format
-                               hides them; drops only for ty = 2)
+                               hides them; drops only for ty = 2, 3)
    observables (serialize)   = token stream, then the length and the bytes of the non-self-describing
                                encoding (bytes masked as -1 for f64) *)
 From GA Require Import Base Codec Serde.
@@ -52,7 +52,7 @@ Definition run_c17 (case : list Z) : list Z :=
     else
       let o := deserialize (znat n) (mk_script h0 mode p tail its) in
       let pl := if (fmt =? 0) || (fmt =? 5) then Z.of_nat (polls o) else -1 in
-      let dr := if ty =? 2 then sortZ (dropped o) else [] in
+      let dr := if (ty =? 2) || (ty =? 3) then sortZ (dropped o) else [] in
       match result o with
       | DOk a => [1; zlen a] ++ a ++ [pl; zlen dr] ++ dr
       | DErr => [0; 0] ++ [pl; zlen dr] ++ dr
